@@ -4,7 +4,7 @@ import random
 
 import p_delta
 from p_delta import delta_cfg, DELTA_ACTIONS
-from vlib import Broken, Verdict, log, read_ndjson, write_ndjson, require_coverage
+from vlib import unreproduced as vlib_unreproduced, Broken, Verdict, log, read_ndjson, write_ndjson, require_coverage
 
 
 def validate_rtok(w, obs, label):
@@ -111,8 +111,7 @@ def check(w):
     if rrej:
         again = [ln for ln in rlines if ln["id"] in rrej]
         robs2, rrej2 = run_rtok(w, again, "rtok-confirm")
-        if set(rrej) - set(rrej2):
-            raise Broken("receiver-script rejections not reproduced on re-run: %s" % sorted(set(rrej) - set(rrej2))[:10])
+        vlib_unreproduced(v, rrej, rrej2)
         remfirst = {500000 + k for k, sc in enumerate(scripts) if sc["remfirst"]}
         for o in robs2:
             if o["id"] in rrej2:
